@@ -119,6 +119,42 @@ func extends(a, b any) bool {
 	return true
 }
 
+// nilEmpties replaces every empty object of a decoded document by a nil map.
+func nilEmpties(v any) any {
+	switch x := v.(type) {
+	case map[string]any:
+		if len(x) == 0 {
+			return map[string]any(nil)
+		}
+		for k, e := range x {
+			x[k] = nilEmpties(e)
+		}
+	case []any:
+		for i, e := range x {
+			x[i] = nilEmpties(e)
+		}
+	}
+	return v
+}
+
+// fillNils is the inverse reading: a nil map is written as {}.
+func fillNils(v any) any {
+	switch x := v.(type) {
+	case map[string]any:
+		if x == nil {
+			return map[string]any{}
+		}
+		for k, e := range x {
+			x[k] = fillNils(e)
+		}
+	case []any:
+		for i, e := range x {
+			x[i] = fillNils(e)
+		}
+	}
+	return v
+}
+
 func (c *DefaultsCase) runImpl() string {
 	var s js.Schema
 	if err := json.Unmarshal([]byte(renderJSON(c.Doc)), &s); err != nil {
@@ -133,7 +169,7 @@ func (c *DefaultsCase) runImpl() string {
 		return c.ID + " unm=ok res=err"
 	}
 	var outs []string
-	lawIdem, lawExt := "1", "1"
+	lawIdem, lawExt, lawNil := "1", "1", "1"
 	for _, d := range c.Docs {
 		var v, orig any
 		json.Unmarshal([]byte(renderJSON(d)), &v)
@@ -158,8 +194,19 @@ func (c *DefaultsCase) runImpl() string {
 		if string(b1) != string(b2) {
 			lawIdem = "0"
 		}
+		// a nil map is an empty object: the same document with every empty object carried by a
+		// nil map (behind the interface, as a member, at the top) is completed the same way
+		var w any
+		json.Unmarshal([]byte(renderJSON(d)), &w)
+		w = nilEmpties(w)
+		var werr error
+		if o := guarded(func() { werr = rs.ApplyDefaults(&w) }); o != "" || werr != nil {
+			lawNil = "0"
+		} else if b3, _ := json.Marshal(fillNils(w)); string(b3) != string(b1) {
+			lawNil = "0"
+		}
 	}
-	return fmt.Sprintf("%s unm=ok res=ok out=%s law_idempotent=%s law_extends=%s", c.ID, strings.Join(outs, ";"), lawIdem, lawExt)
+	return fmt.Sprintf("%s unm=ok res=ok out=%s law_idempotent=%s law_extends=%s law_nilmap=%s", c.ID, strings.Join(outs, ";"), lawIdem, lawExt, lawNil)
 }
 
 func init() {
